@@ -290,23 +290,120 @@ fn gcase() -> BoxedStrategy<CkCase> {
         .boxed()
 }
 
+/// The entries a case ends up with, written as a PURL (what the prelude's related calls are derived from).
+fn case_text(c: &CkCase) -> String {
+    let mut m: BTreeMap<String, (String, Vec<u8>)> = BTreeMap::new();
+    for op in &c.ops {
+        match op {
+            COp::Insert(a, b) | COp::InsertRawUpper(a, b) | COp::InsertRawLower(a, b) => {
+                m.insert(model::lower(a), (a.clone(), b.clone()));
+            },
+            COp::Remove(a) => {
+                m.remove(&model::lower(a));
+            },
+        }
+    }
+    let value: Vec<String> = m.values().map(|(a, b)| format!("{a}:{}", model::hex_lower(b))).collect();
+    let escaped: String = value
+        .join(",")
+        .bytes()
+        .map(|b| if b.is_ascii_alphanumeric() || b == b':' || b == b',' || b == b'-' { (b as char).to_string() } else { format!("%{b:02X}") })
+        .collect();
+    format!("pkg:npm/n?checksum={escaped}")
+}
+
+fn o_hist(h: &crate::history::Hist<CkCase>, st: &mut Stats) -> Result<(), String> {
+    let text = case_text(&h.inner);
+    crate::history::judge(h, &text, o_case, st)
+}
+
+/// A checksum with *very many* algorithms (tens of thousands of distinct names: n^2/2 pairs, so a
+/// digest or bucket kept per name meets its collisions): written in descending order with every third
+/// name in upper case and upper-case hex, it must parse, hold exactly those entries, and print in
+/// the canonical form; the same through a PURL.
+fn o_many(c: &crate::props::c02::ManyKeys, st: &mut Stats) -> Result<(), String> {
+    if c.n > 200_000 {
+        return Err("bad replay case: many-algorithms parameters".into());
+    }
+    let r = guard(|| -> Result<(), String> {
+        let names = crate::props::c02::many_keys(c.seed, c.n);
+        let mut m: BTreeMap<String, Vec<u8>> = BTreeMap::new();
+        let mut written: Vec<String> = Vec::with_capacity(names.len());
+        for (j, (a, _)) in names.iter().enumerate().rev() {
+            let bytes = vec![(j >> 8) as u8, j as u8];
+            let spelled = if crate::engine::mix(&[c.seed, j as u64, 13]) % 3 == 0 { a.to_ascii_uppercase() } else { a.clone() };
+            written.push(format!("{spelled}:{}", hex_upper(&bytes)));
+            m.insert(a.clone(), bytes);
+        }
+        let text = written.join(",");
+        let want_text = model::cksum_text(&m.iter().map(|(a, b)| (a.clone(), model::hex_lower(b))).collect::<Vec<_>>());
+        let short = |e: String| e.chars().take(400).collect::<String>();
+        let ck = Checksum::try_from(text.as_str()).map_err(|e| format!("a checksum text with {} distinct algorithms is refused: {e}", m.len()))?;
+        check_typed(&ck, &m, &format!("{} algorithms parsed", m.len())).map_err(short)?;
+        let out = SmallString::try_from(ck).map_err(|e| format!("serialising {} algorithms failed: {e}", m.len()))?;
+        if out.as_str() != want_text {
+            let at = out.as_str().bytes().zip(want_text.bytes()).position(|(a, b)| a != b).unwrap_or(0);
+            return Err(format!("{} algorithms: the text form differs from the canonical text at byte {at}: ...{:?} vs ...{:?}", m.len(), out.as_str().get(at.saturating_sub(20)..(at + 20).min(out.len())), want_text.get(at.saturating_sub(20)..(at + 20).min(want_text.len()))));
+        }
+        let s = format!("pkg:npm/n?checksum={text}");
+        match parse::<IStr>(&s) {
+            Ok(Ok(p)) => {
+                if p.qualifiers().get("checksum") != Some(want_text.as_str()) {
+                    return Err(format!("a PURL with a checksum of {} algorithms does not carry the canonical text", m.len()));
+                }
+            },
+            other => return Err(format!("a PURL with a checksum of {} distinct algorithms is not accepted: {:?}", m.len(), other.map(|r| r.map(|_| ())))),
+        }
+        Ok(())
+    });
+    match r {
+        Err(m) => return Err(format!("a checksum operation panicked: {m}")),
+        Ok(r) => r?,
+    }
+    st.class(match c.n {
+        0..=9_999 => "thousands of algorithms",
+        10_000..=65_535 => "tens of thousands of algorithms",
+        _ => "more than 65535 algorithms",
+    });
+    st.nontrivial(&(c.seed, c.n), || json!({ "seed": c.seed, "algorithms": c.n }));
+    Ok(())
+}
+
 pub fn sections() -> Vec<Box<dyn Section>> {
-    vec![Box::new(Random {
-        name: "entry-sets-orders-cases".into(),
-        quick: 120_000,
-        thorough: 4_000_000,
-        strategy: Box::new(|_: Tier| gcase()),
-        oracle: o_case,
-        required: vec![
-            "empty-set",
-            "two-or-more-entries",
-            "inserted-in-non-sorted-order",
-            "re-inserted-in-another-case",
-            "algorithm-with-colon",
-            "algorithm-non-ascii",
-            "empty-byte-string",
-        ],
-    })]
+    vec![
+        Box::new(Random {
+            name: "very-many-algorithms".into(),
+            quick: 120,
+            thorough: 3_000,
+            strategy: Box::new(|_: Tier| crate::props::c02::gmany()),
+            oracle: o_many,
+            required: vec!["thousands of algorithms", "tens of thousands of algorithms", "more than 65535 algorithms"],
+        }),
+        Box::new(Random {
+            name: "entry-sets-after-a-prelude".into(),
+            quick: 16_000,
+            thorough: 400_000,
+            strategy: Box::new(|_: Tier| crate::history::ghist(gcase())),
+            oracle: o_hist,
+            required: vec!["two-or-more-entries"],
+        }),
+        Box::new(Random {
+            name: "entry-sets-orders-cases".into(),
+            quick: 120_000,
+            thorough: 4_000_000,
+            strategy: Box::new(|_: Tier| gcase()),
+            oracle: o_case,
+            required: vec![
+                "empty-set",
+                "two-or-more-entries",
+                "inserted-in-non-sorted-order",
+                "re-inserted-in-another-case",
+                "algorithm-with-colon",
+                "algorithm-non-ascii",
+                "empty-byte-string",
+            ],
+        }),
+    ]
 }
 
 pub fn prop() -> Prop {
